@@ -184,6 +184,9 @@ def run_case(case):
     if len(res.span) != len(new_labels) or not all(bool(a == b) for a, b in zip(list(res.span), new_labels)):
         out.append(('span', [repr(x) for x in new_labels], [repr(x) for x in list(res.span)], 'span of the result is not the requested span'))
         return out
+    if type(res.span) is not type(new_span):
+        out.append(('span-type', type(new_span).__name__, type(res.span).__name__, 'the result does not carry the span object it was given (type changed)'))
+        return out
     if list(res.index) != list(obj.index):
         out.append(('variable-order', list(obj.index), list(res.index), 'variable order changed'))
         return out
